@@ -470,10 +470,11 @@ _dispatch_transform_from_utf16(dispatch_data_t data, int32_t byteOrder)
 			if (ch == 0xfffe && offset == 0 && i == 0) {
 				// Wrong-endian BOM at beginning of data
 				return (bool)false;
-			} else if (ch == 0xfeff && offset == 0 && i == 0) {
-				// Correct-endian BOM, skip it
-				continue;
 			}
+			// A correct-endian BOM is converted like any other character: the
+			// encoder that follows (UTF-8 or UTF-16) removes one leading BOM.
+			// Skipping it here as well made a U+FEFF character at the start
+			// of the text disappear together with the BOM.
 
 			if ((ch >= 0xd800) && (ch <= 0xdbff)) {
 				// Surrogate pair
